@@ -106,15 +106,26 @@ theorem delayRemap_table :
 theorem aux_findIn_cons (v u : Nat) (rep : List (Nat × Nat)) (k : Nat) :
     SM.findIn ((v, u) :: rep) k = if SM.findIn rep k = v then u else SM.findIn rep k := rfl
 
-theorem aux_mergeCore_rep (perm : List Nat → List Nat) (sm sm' : SM) (u v : Nat) (ok : Bool)
-    (h : SM.mergeCore perm sm u v = .done sm' ok) : ok = true ∧ sm'.rep = (v, u) :: sm.rep := by
-  unfold SM.mergeCore at h
+theorem aux_mergeRest_rep (preds0 : List (Nat × List Nat)) (topo0 : List Nat) (idx0 len0 rep0 : List (Nat × Nat))
+    (u v : Nat) (x : SM.MergeRest) (h : SM.mergeRest preds0 topo0 idx0 len0 rep0 u v = some x) :
+    x.rep = (v, u) :: rep0 := by
+  unfold SM.mergeRest at h
   simp only at h
   split at h
   · cases h
-  · injection h with h1 h2
+  · injection h with h
+    subst h
+    rfl
+
+theorem aux_mergeCore_rep (perm : List Nat → List Nat) (sm sm' : SM) (u v : Nat) (ok : Bool)
+    (h : SM.mergeCore perm sm u v = .done sm' ok) : ok = true ∧ sm'.rep = (v, u) :: sm.rep := by
+  unfold SM.mergeCore at h
+  split at h
+  · cases h
+  · rename_i x hx
+    injection h with h1 h2
     subst h1
-    exact ⟨h2.symm, rfl⟩
+    exact ⟨h2.symm, aux_mergeRest_rep _ _ _ _ _ _ _ _ hx⟩
 
 /-- what `try_merge(a, b)` does to the union-find -/
 theorem aux_tryMerge_spec (sm sm' : SM) (a b : Nat) (ok : Bool) (h : sm.tryMerge a b = .done sm' ok) :
@@ -132,8 +143,9 @@ theorem aux_tryMerge_spec (sm sm' : SM) (a b : Nat) (ok : Bool) (h : sm.tryMerge
     · injection h with h1 h2
       subst h1; subst h2
       exact ⟨fun _ => rfl, fun h => (by cases h)⟩
-    · by_cases hlt : (aget sm.idx (sm.find a)).getD 0 < (aget sm.idx (sm.find b)).getD 0
-      · simp only [hlt, decide_true, if_true] at h
+    · split at h
+      · unfold SM.tryMergeTail at h
+        simp only at h
         split at h
         · injection h with h1 h2
           subst h1; subst h2
@@ -141,7 +153,8 @@ theorem aux_tryMerge_spec (sm sm' : SM) (a b : Nat) (ok : Bool) (h : sm.tryMerge
         · obtain ⟨hok, hrep⟩ := aux_mergeCore_rep _ _ _ _ _ _ h
           subst hok
           exact ⟨fun h => (by cases h), fun _ => Or.inr ⟨_, _, Or.inl ⟨rfl, rfl⟩, hrep⟩⟩
-      · simp only [hlt, decide_false, Bool.false_eq_true, if_false] at h
+      · unfold SM.tryMergeTail at h
+        simp only at h
         split at h
         · injection h with h1 h2
           subst h1; subst h2
